@@ -609,6 +609,10 @@ func (a *A) ruleLatePolicy(W *types.Named, add *ssa.Function) {
 		}
 		// a return the insertion does not dominate: could some path reach it without inserting?
 		okLate := guardedByCall(b, isLate, true) || guardedByValue(b, isTsOk, false)
+		if !okLate && guardedByCall(b, func(f *ssa.Function) bool { return f.Name() == "IsFarFuture" && f.Signature.Recv() != nil && isNamedType(f.Signature.Recv().Type(), wm.Obj().Pkg().Path(), "Watermark") }, true) {
+			a.Ok(fname(add)+"#return-far-future", ret.Pos(), "this return drops a row whose timestamp the watermark ignores as corrupt (more than maxOutOfOrderness+24h ahead): such a row never changes a result")
+			continue
+		}
 		if !okLate {
 			// precise check: is there a path entry->ret avoiding all insertions?
 			if !returnReachableAvoiding(add, ret, insert) {
